@@ -15,6 +15,7 @@ CONSTANTS
   B5 = 0
   MaxChain = 2
   FnOwn = 1
+  BFn = 3
   EmitAllUpTo = 1
   Sel = 20
   KeepGoing = TRUE
